@@ -255,8 +255,13 @@ Slot(id, mode, tmpl, path, field, form) ==
   [id |-> id, mode |-> mode, tmpl |-> tmpl, path |-> path, field |-> field, form |-> form,
    strict |-> mode \notin {"List", "Set", "Tuple", "Dict", "MatchSequence", "MatchMapping"}]
 (* kinds a slot takes as they are, no conversion involved: the kinds of its  *)
-(* mode; a statement list takes its container (Module) and its elements.      *)
-NativeKinds(mode) == IF mode \in {"stmt", "stmts"} THEN StmtKinds \cup {"Module"} ELSE KindsOf(mode)
+(* mode.  A statement list takes its elements (any stmt) and its containers:  *)
+(*   StmtContainers: Module (the slice type of statements) and Interactive -   *)
+(*   a `mod` whose body is a statement list exactly like Module's (pfst rule   *)
+(*   "our own element / container type is always accepted", slice_stmtlike).   *)
+(* Expression is NOT native: its body is an expr, putting it is a conversion.  *)
+StmtContainers == {"Module", "Interactive"}
+NativeKinds(mode) == IF mode \in {"stmt", "stmts"} THEN StmtKinds \cup StmtContainers ELSE KindsOf(mode)
 
 Slots ==
   << Slot("Assign.value", "expr", "t = v", <<P("body", 1)>>, "value", "one"),
